@@ -819,17 +819,19 @@ fn run(c: &Case) -> CaseResult {
             for e in expected[*i].1.iter_mut() {
                 if let Some(f) = nearest_f32(e) {
                     if f.to_string() != *e {
-                        // JSON numbers reach an f32 field through an f64 (serde_json's number model): the value rounded
-                        // twice is accepted there as well, and labelled
-                        let twice = e.parse::<f64>().map(|x| (x as f32).to_string()).unwrap_or_default();
+                        // JSON numbers reach an f32 field through serde_json's own number model (an f64 that is itself only
+                        // approximately parsed for long inputs, then narrowed): there the neighbouring f32 is accepted as
+                        // well, and labelled
                         let name = fields[*i].0;
-                        let got_twice = c.channel == Channel::Json
-                            && twice != f.to_string()
-                            && matches!(&got, Ok(v) if v.iter().any(|(n, t)| *n == name && t.len() == 1 && t[0] == twice));
-                        if got_twice {
-                            *e = twice;
-                            info.lab("json:f32-rounded-twice(serde_json number model)");
-                            continue;
+                        let neighbour = |t: &str| t.parse::<f32>().is_ok_and(|g| (g.to_bits() as i64 - f.to_bits() as i64).abs() == 1);
+                        if c.channel == Channel::Json {
+                            if let Ok(v) = &got {
+                                if let Some((_, t)) = v.iter().find(|(n, t)| *n == name && t.len() == 1 && neighbour(&t[0])) {
+                                    *e = t[0].clone();
+                                    info.lab("json:f32-off-by-one-ulp(serde_json number model)");
+                                    continue;
+                                }
+                            }
                         }
                         *e = f.to_string();
                         info.lab(format!("{chan}:f32-long-decimal-near-midpoint"));
